@@ -206,11 +206,12 @@ pub fn on_fresh_thread<R: Send + 'static>(f: impl FnOnce() -> R + Send + 'static
         .stack_size(512 << 20)
         .spawn(move || {
             install_thread_state();
-            f()
+            catch(f)
         })
         .expect("spawn")
         .join()
-        .expect("fixture thread panicked")
+        .expect("fixture thread died")
+        .unwrap_or_else(|p| panic!("on a fixture thread, at {}: {}", p.site(), p.msg))
 }
 
 /// Executes one scenario on the current thread with fresh simulator state.
